@@ -332,3 +332,146 @@ Proof.
     + apply in_map_iff. exists (opt_group groups n). split; [reflexivity | exact Hr].
     + destruct (filter _ nodes); [destruct Hin | reflexivity].
 Qed.
+
+(* ---------------------------------------------------------------------------------------------- *)
+(* meio_by_enumeration = argument plumbing + enum_core on the grids of truncate_and_discretize *)
+Lemma opt_all_spec {A} : forall (l : list (option A)) r, opt_all l = Some r -> l = map Some r.
+Proof. induction l as [|[x|] l IH]; intros r E; cbn [opt_all] in E; [inversion E; reflexivity | | discriminate].
+  destruct (opt_all l) as [r'|]; [|discriminate]. inversion E; subst. cbn [map]. rewrite (IH r' eq_refl). reflexivity. Qed.
+
+Lemma restrict_spec {A} (d : list (nat * A)) : forall order v, restrict d order = Some v ->
+  map fst v = order /\ forall kv, In kv v -> lookup d (fst kv) = Some (snd kv).
+Proof.
+  unfold restrict. intros order v E. apply opt_all_spec in E. revert v E.
+  induction order as [|n r IH]; intros v E; destruct v as [|kv v']; cbn [map] in E; try discriminate.
+  - split; [reflexivity | intros kv []].
+  - inversion E as [[E1 E2]]. destruct (lookup d n) as [x|] eqn:L; [|discriminate]. inversion E1; subst kv.
+    destruct (IH v' E2) as [Hm Hl]. split; [cbn [map fst]; rewrite Hm; reflexivity|].
+    intros kv [Ek|Hk]; [subst kv; cbn [fst snd]; exact L | apply Hl; exact Hk].
+Qed.
+
+Lemma lookup_in_nodup {A} : forall (l : list (nat * A)) kv, NoDup (map fst l) -> In kv l -> lookup l (fst kv) = Some (snd kv).
+Proof.
+  induction l as [|[k x] r IH]; intros kv Hnd Hin; [destruct Hin|]. cbn [map fst] in Hnd. inversion Hnd as [|? ? Hnot Hnd']; subst.
+  cbn [lookup]. destruct Hin as [E|Hin].
+  - subst kv. cbn [fst snd]. rewrite Nat.eqb_refl. reflexivity.
+  - destruct (Nat.eqb_spec k (fst kv)) as [E|_]; [exfalso; apply Hnot; rewrite E; apply in_map; exact Hin | apply IH; assumption].
+Qed.
+
+(* the grid of the j-th optimised node as meio_by_enumeration determines it *)
+Definition node_grid_of (nodes : list nat) (bsl : option (list (nat * option (list Q)))) (lo hi step : arg Q) (num : arg Z)
+    (provided : bool) (n : nat) (g : list Q) : Prop :=
+  if provided then exists d, bsl = Some d /\ lookup d n = Some (Some g)
+  else exists l h s k, lookup (ensure_dict lo nodes) n = Some l /\ lookup (ensure_dict hi nodes) n = Some h /\
+                       lookup (ensure_dict step nodes) n = Some s /\ lookup (ensure_dict num nodes) n = Some k /\
+                       node_grid l h s k = Some g.
+
+Theorem meio_enum_spec nodes groups order bsl lo hi step num f r : NoDup order ->
+  meio_enum nodes groups order bsl lo hi step num f = Some r ->
+  exists G provided, length G = length order /\
+    enum_core nodes order (opt_group groups) G f = Some r /\
+    forall j, (j < length order)%nat ->
+      node_grid_of nodes bsl lo hi step num provided (nth j order 0%nat) (nth j G []).
+Proof.
+  intros Hnd E. unfold meio_enum in E.
+  set (bsl_d := match bsl with Some d => d | None => map (fun n => (n, None)) nodes end) in *.
+  destruct (restrict bsl_d order) as [v|] eqn:Ev; [|discriminate].
+  destruct (restrict (ensure_dict lo nodes) order) as [l|] eqn:El; [|discriminate].
+  destruct (restrict (ensure_dict hi nodes) order) as [h|] eqn:Eh; [|discriminate].
+  destruct (restrict (ensure_dict step nodes) order) as [s|] eqn:Es; [|discriminate].
+  destruct (restrict (ensure_dict num nodes) order) as [k|] eqn:Ek; [|discriminate].
+  destruct (tad order (Some v) (APer l) (APer h) (APer s) (APer k)) as [sd|] eqn:Et; [|discriminate].
+  destruct (opt_all (map (fun kv => snd kv) sd)) as [G|] eqn:EG; [|discriminate].
+  destruct (restrict_spec _ _ _ Ev) as [Hv1 Hv2]. destruct (restrict_spec _ _ _ El) as [Hl1 Hl2].
+  destruct (restrict_spec _ _ _ Eh) as [Hh1 Hh2]. destruct (restrict_spec _ _ _ Es) as [Hs1 Hs2].
+  destruct (restrict_spec _ _ _ Ek) as [Hk1 Hk2].
+  apply opt_all_spec in EG.
+  exists G, (values_provided (Some v)). unfold tad in Et. cbn [ensure_dict] in Et.
+  destruct (values_provided (Some v)) eqn:Ep.
+  - (* base_stock_levels given *)
+    inversion Et; subst sd. rewrite Hv1 in E.
+    assert (HG : length G = length order) by (rewrite <- Hv1, <- (map_length Some G), <- EG, !map_length; reflexivity).
+    split; [exact HG|]. split; [exact E|]. intros j Hj. cbn [node_grid_of].
+    assert (Hbsl : exists d, bsl = Some d /\ bsl_d = d).
+    { destruct bsl as [d|]; [exists d; split; reflexivity|]. exfalso.
+      (* no dict: every entry of v is None, contradiction with values_provided *)
+      cbn [values_provided] in Ep. apply existsb_exists in Ep. destruct Ep as (kv & Hkv & Hs).
+      pose proof (Hv2 kv Hkv) as L. unfold bsl_d in L. clear - L Hs. destruct kv as [n0 x]. cbn [fst snd] in *.
+      induction nodes as [|m ms IH]; cbn [map lookup] in L; [discriminate|].
+      destruct (Nat.eqb m n0); [inversion L; subst; discriminate | exact (IH L)]. }
+    destruct Hbsl as (d & Eb & Ed). exists d. split; [exact Eb|]. rewrite <- Ed.
+    assert (Hjv : (j < length v)%nat) by (rewrite <- (map_length fst), Hv1; exact Hj).
+    pose proof (Hv2 (nth j v (0%nat, None)) (nth_In _ _ Hjv)) as L.
+    assert (Ef : fst (nth j v (0%nat, None)) = nth j order 0%nat).
+    { rewrite <- Hv1. change 0%nat with (fst (0%nat, @None (list Q))) at 2. rewrite map_nth. reflexivity. }
+    rewrite Ef in L. rewrite L. f_equal.
+    assert (En : nth j (map (fun kv : nat * option (list Q) => snd kv) v) None = nth j (map Some G) None) by (rewrite EG; reflexivity).
+    change (@None (list Q)) with (snd (0%nat, @None (list Q))) in En at 1. rewrite map_nth in En. rewrite En.
+    rewrite (nth_indep _ None (Some [])) by (rewrite map_length; lia). rewrite map_nth. reflexivity.
+  - (* grids from (lo, hi, step / num) *)
+    apply opt_all_spec in Et.
+    assert (Hsd : map fst sd = order /\ forall j, (j < length order)%nat ->
+               exists lj hj sj kj g, lookup l (nth j order 0%nat) = Some lj /\ lookup h (nth j order 0%nat) = Some hj /\
+                 lookup s (nth j order 0%nat) = Some sj /\ lookup k (nth j order 0%nat) = Some kj /\
+                 node_grid lj hj sj kj = Some g /\ nth j sd (0%nat, None) = (nth j order 0%nat, Some g)).
+    { clear - Et. revert sd Et. induction order as [|n r IH]; intros sd Et; destruct sd as [|kv sd']; cbn [map] in Et; try discriminate.
+      - split; [reflexivity | intros j Hj; cbn in Hj; lia].
+      - inversion Et as [[E1 E2]]. destruct (IH sd' E2) as [I1 I2].
+        destruct (lookup l n) as [lj|] eqn:L1; [|discriminate]. destruct (lookup h n) as [hj|] eqn:L2; [|discriminate].
+        destruct (lookup s n) as [sj|] eqn:L3; [|discriminate]. destruct (lookup k n) as [kj|] eqn:L4; [|discriminate].
+        destruct (node_grid lj hj sj kj) as [g|] eqn:Ng; [|discriminate]. inversion E1; subst kv.
+        split; [cbn [map fst]; rewrite I1; reflexivity|].
+        intros [|j] Hj; cbn [nth length] in *.
+        + exists lj, hj, sj, kj, g. repeat split; assumption.
+        + apply I2. lia. }
+    destruct Hsd as [Hsd1 Hsd2]. rewrite Hsd1 in E.
+    assert (HG : length G = length order) by (rewrite <- Hsd1, <- (map_length Some G), <- EG, !map_length; reflexivity).
+    split; [exact HG|]. split; [exact E|]. intros j Hj. cbn [node_grid_of].
+    destruct (Hsd2 j Hj) as (lj & hj & sj & kj & g & L1 & L2 & L3 & L4 & Ng & En).
+    assert (Hlift : forall {A} (dd : list (nat * A)) (rr : list (nat * A)) x,
+               (forall kv, In kv rr -> lookup dd (fst kv) = Some (snd kv)) -> NoDup (map fst rr) ->
+               lookup rr (nth j order 0%nat) = Some x -> lookup dd (nth j order 0%nat) = Some x).
+    { intros A dd rr x Hall Hndr Lr. clear - Hall Lr.
+      induction rr as [|[k0 x0] rr' IHr]; cbn [lookup] in Lr; [discriminate|].
+      destruct (Nat.eqb_spec k0 (nth j order 0%nat)) as [Ek0|_].
+      - inversion Lr; subst x0. rewrite <- Ek0. exact (Hall (k0, x) (or_introl eq_refl)).
+      - apply IHr; [intros kv Hkv; apply Hall; right; exact Hkv | exact Lr]. }
+    exists lj, hj, sj, kj. repeat split.
+    + apply (Hlift _ _ l lj Hl2); [rewrite Hl1; exact Hnd | exact L1].
+    + apply (Hlift _ _ h hj Hh2); [rewrite Hh1; exact Hnd | exact L2].
+    + apply (Hlift _ _ s sj Hs2); [rewrite Hs1; exact Hnd | exact L3].
+    + apply (Hlift _ _ k kj Hk2); [rewrite Hk1; exact Hnd | exact L4].
+    + rewrite Ng. f_equal.
+      assert (Eq : nth j (map (fun kv : nat * option (list Q) => snd kv) sd) None = nth j (map Some G) None) by (rewrite EG; reflexivity).
+      change (@None (list Q)) with (snd (0%nat, @None (list Q))) in Eq at 1. rewrite map_nth in Eq. rewrite En in Eq. cbn [snd] in Eq.
+      rewrite (nth_indep _ None (Some [])) in Eq by (rewrite map_length; lia). rewrite map_nth in Eq. inversion Eq. reflexivity.
+Qed.
+
+(* ---- the whole of meio_by_enumeration ---- *)
+Theorem meio_enum_optimal nodes groups order bsl lo hi step num f S c :
+  NoDup order ->
+  (forall n, In n nodes -> In (opt_group groups n) order) ->
+  (forall r, In r order -> exists n, In n nodes /\ opt_group groups n = r) ->
+  meio_enum nodes groups order bsl lo hi step num f = Some (S, c) ->
+  exists G provided,
+    length G = length order /\
+    (forall j, (j < length order)%nat -> node_grid_of nodes bsl lo hi step num provided (nth j order 0%nat) (nth j G [])) /\
+    grid_vector nodes order (opt_group groups) G S /\
+    c = f S /\
+    forall v, grid_vector nodes order (opt_group groups) G v -> c <= f v.
+Proof.
+  intros Hnd Hcov Hused E. destruct (meio_enum_spec _ _ _ _ _ _ _ _ _ _ Hnd E) as (G & p & HG & Ec & Hgrid).
+  exists G, p. split; [exact HG|]. split; [exact Hgrid|].
+  exact (enum_core_optimal nodes order (opt_group groups) G f Hnd Hcov HG Hused S c Ec).
+Qed.
+
+(* nodes of one user-supplied set share a level *)
+Theorem grid_vector_groups_share nodes order gs G v : disjoint_groups gs ->
+  grid_vector nodes order (opt_group (Some gs)) G v ->
+  forall g i i', In g gs -> (i < length nodes)%nat -> (i' < length nodes)%nat ->
+    In (nth i nodes 0%nat) g -> In (nth i' nodes 0%nat) g -> nth i v 0 = nth i' v 0.
+Proof.
+  intros Hd (_ & _ & Hshare) g i i' Hg Hi Hi' Hn Hn'. apply Hshare; try assumption. unfold node.
+  destruct (opt_group_spec gs Hd) as (H1 & _ & _).
+  destruct (H1 g _ Hg Hn) as [E1 _]. destruct (H1 g _ Hg Hn') as [E2 _]. rewrite E1, E2. reflexivity.
+Qed.
